@@ -139,6 +139,17 @@ def run(ctx):
         fe9(bytes.fromhex(h), dbsn, mask, bytes.fromhex(c32) if c32 else None, exp, vec=True)
     for b, exp in VECTORS8:
         fe8(bitarray(b), exp, vec=True)
+    def fill(n_):
+        """message octets: mostly random, one in six all zeros (padding-only blocks), all ones, or zero but for the last octet"""
+        k_ = rng.randrange(18)
+        if k_ == 0:
+            return bytes(n_)
+        if k_ == 1:
+            return b"\xff" * n_
+        if k_ == 2 and n_:
+            return bytes(n_ - 1) + bytes([rng.randrange(1, 256)])
+        return bytes(rng.getrandbits(8) for _ in range(n_))
+
     nfe = 250 if ctx.quick else 25000
     jobs = []
     for _ in range(nfe):
@@ -149,7 +160,7 @@ def run(ctx):
             bits = bitarray([rng.getrandbits(1) for _ in range(rng.choice([28, 28, rng.randrange(0, 90)]))])
             fe8(bits, CRC8.calculate(bits.copy()))
         elif k == "9":
-            data = bytes(rng.getrandbits(8) for _ in range(rng.choice([6, 10, 12, 16, 18, 22, rng.randrange(0, 30)])))
+            data = fill(rng.choice([6, 10, 12, 16, 18, 22, rng.randrange(0, 30)]))
             dbsn = rng.randrange(128)
             m = rng.choice([CrcMasks.Rate12DataContinuation, CrcMasks.Rate34DataContinuation, CrcMasks.Rate1DataContinuation])
             # the CRC-32 part as four octets, including the values an "is it there?" test could mistake for absent
@@ -160,7 +171,7 @@ def run(ctx):
             fe9(data, dbsn, m.value, c32, CRC9.calculate_from_parts(form(data) if form is not memoryview else data, dbsn, m,
                                                                     crc32=None if c32 is None else form(c32)))
         elif k == "16":
-            data = bytes(rng.getrandbits(8) for _ in range(rng.choice([10, 10, rng.randrange(0, 40)])))
+            data = fill(rng.choice([10, 10, rng.randrange(0, 40)]))
             m = rng.choice(masks)
             buf = bytearray(data) if rng.random() < 0.5 else gen.as_caller_bytes(data, len(fe))
             CRC16.calculate(buf, m)
@@ -170,7 +181,7 @@ def run(ctx):
             if bytes(buf) != data:
                 fe16(data, m.value, out ^ 1, False, True)
         else:
-            data = bytes(rng.getrandbits(8) for _ in range(rng.choice([rng.randrange(0, 60), rng.randrange(0, 60), 20])))
+            data = fill(rng.choice([rng.randrange(0, 60), rng.randrange(0, 60), 20]))
             # half of the callers own a mutable buffer and use it for several calls (calculate, calculate again, verify)
             buf = bytearray(data) if rng.random() < 0.5 else gen.as_caller_bytes(data, len(fe))
             CRC32.calculate(buf)
